@@ -89,6 +89,9 @@ def service_cases(tier, inst):
     if tier == "quick":
         for ms in P.stream_multisets(inst, K, 2, cps=(1, 2), dts=(1,), iso=True):
             yield {"streams": ms, "uset": 1, "inst": list(inst)}
+    for ms in P.crowds(inst, K, dts=(0, 1)):         # problems of realistic size (10-40 streams): many coincident zeros of the residual
+        for ui in (0, 1):
+            yield {"streams": ms, "uset": ui, "inst": list(inst)}
     # temperatures with 5 decimals: a pinch temperature must be reported as it is, not rounded with the stored tables
     fine = (inst[0] + 0.00004, inst[1] + 0.00003, inst[2], inst[3])
     for ms in P.stream_multisets(fine, K, 2, cps=(1, 2), dts=(0, 1), iso=True):
@@ -170,7 +173,7 @@ SUBCHECKS = {
         rule="case = stream multiset x utility set {none, levels beyond the range}; non-trivial = >=2 zeros of the residual or a threshold shape; "
              "shape classes (multiple runs, threshold top/bottom, whole-range) are counted in stats",
         cases=service_cases, run=service_run,
-        bound=lambda t: "multisets <=3 (K=4, dt=0) + multisets <=2 (dt=d/2) with utility levels beyond the range + 5-decimal-temperature and zero-crossing lattices" if t == "quick"
+        bound=lambda t: "multisets <=3 (K=4, dt=0) + multisets <=2 (dt=d/2) with utility levels beyond the range + 5-decimal-temperature and zero-crossing lattices + 7 problems of 10-40 streams" if t == "quick"
         else "multisets <=3 (K=4, dt {0,d/2}) x {no utilities, levels beyond the range}",
     ),
 }
